@@ -26,7 +26,7 @@ class TLock(S.Lock):
         CUR["locks"].append(self)
 
 
-class GetterFails(Exception):
+class GetterFails(KeyError):     # (the library handles KeyError of the instance-dict lookup: the getter's own must pass through)
     pass
 
 
@@ -182,6 +182,12 @@ def oracle(cfg, actions, sysm, snaps):
             return "foreign-value", "an awaiter received %r which no getter run returned (%r)" % (v, sysm.completed)
     if "data" in sysm.other.__dict__:
         return "per-instance", "a second instance was affected"
+    if not builtins.any(a_[0] == "cancel" for a_ in actions):
+        # a getter run that fails makes the await that ran it fail: the failure is never swallowed (nor retried silently)
+        failed_runs = len([r for r in range(sysm.runs) if r in cfg["fail_runs"]])
+        raised = len([1 for res in sysm.results for r in res if r[0] == "raised"])
+        if raised < failed_runs:
+            return "failure-swallowed", "%d getter runs failed but only %d awaits raised (results %r)" % (failed_runs, raised, sysm.results)
     if cfg["lock"]:
         # at most one successful computation per cached value: a new one needs a deletion in between
         dels = len([1 for res in sysm.results for r, op in builtins.zip(res, [None] * len(res)) if False])
@@ -338,6 +344,40 @@ def run(tier, seed):
             rep.violation("cached-property:model-mismatch", {"broken": "correspondence impl<->Model/CachedProperty.v (ptrace), per-action snapshots", "case": sh[j][:4000]}, no_input=not rep.has_failing_input())
     rep.cov["traces_validated_against_impl"] = len(texts)
     rep.notes["model_mismatches"] = mism
+    # directed: an awaitable taken from the attribute before a deletion and awaited after it recomputes (and caches) like
+    # a fresh access: a deleted value is gone for everybody
+    for with_lock in (False, True):
+        runs2 = []
+        deco2 = a.cached_property(TLock) if with_lock else a.cached_property
+        CUR["sched"], CUR["locks"] = Sched(), []
+
+        class Res2:
+            @deco2
+            async def data(self):
+                runs2.append(len(runs2))
+                return 100 + len(runs2)
+
+        async def stale():
+            from gencalc import drive as _d  # noqa
+            o = Res2()
+            p0 = o.data
+            v0 = await p0
+            del o.data
+            v1 = await p0                 # the awaitable obtained before the deletion
+            v2 = await o.data             # a fresh access
+            del o.data
+            v3 = await o.data
+            v4 = await p0
+            return [v0, v1, v2, v3, v4], len(runs2)
+        try:
+            from gencalc import drive as _drive2
+            got = _drive2(stale())
+            why = None if got == ([101, 102, 102, 103, 103], 3) else "values %r with %d getter runs, expected [101, 102, 102, 103, 103] with 3" % got
+        except BaseException as e:  # noqa
+            why = "failed with %r" % (e,)
+        rep.count(("stale-awaitable", with_lock), True)
+        if why:
+            rep.violation("cached_property:stale-awaitable", {"lock": with_lock, "why": "await p; del; await p; fresh access; del; fresh access; await p: " + why})
     # directed: a subclass overrides the property and builds on the parent's through super(): one computation of each,
     # the child's value served afterwards; like functools.cached_property in synchronous code
     import functools as _ft
